@@ -92,28 +92,34 @@ func runC14(c *Ctx) {
 			}
 			nk++
 			key := unwrap(cc.Args[len(cc.Args)-2], true)
-			g := loadedGlobal(key)
-			ok, why := false, "key is not a package-level variable"
-			if g != nil {
-				pt, isPtr := g.Type().(*types.Pointer).Elem().(*types.Pointer)
-				switch {
-				case g.Object() != nil && g.Object().Exported():
-					why = "key variable " + g.Name() + " is exported: a user can store under it"
-				case !isPtr:
-					why = "key variable is not a pointer (equal values of the same type would collide)"
-				default:
-					n := namedOf(pt)
-					if n == nil || n.Obj().Exported() {
-						why = "key type is exported"
-					} else {
-						ok, why = true, "private pointer key "+g.Name()
+			gs, recognised := keyGlobalsOf(key)
+			if !recognised {
+				r.Note(fmt.Sprintf("shape-unrecognised R14.2: the key of the SetProperty call at %s is computed (%s); which variable it is was not determined", c.Pos(in.Pos()), key.String()))
+				return
+			}
+			for _, g := range gs {
+				ok, why := false, "key is not a package-level variable"
+				if g != nil {
+					pt, isPtr := g.Type().(*types.Pointer).Elem().(*types.Pointer)
+					switch {
+					case g.Object() != nil && g.Object().Exported():
+						why = "key variable " + g.Name() + " is exported: a user can store under it"
+					case !isPtr:
+						why = "key variable is not a pointer (equal values of the same type would collide)"
+					default:
+						n := namedOf(pt)
+						if n == nil || n.Obj().Exported() {
+							why = "key type is exported"
+						} else {
+							ok, why = true, "private pointer key "+g.Name()
+						}
 					}
 				}
+				r.Check("R14.2", FuncName(fn), "key of SetProperty", in.Pos(), ok, why)
 			}
-			r.Check("R14.2", FuncName(fn), "key of SetProperty", in.Pos(), ok, why)
 		})
 	}
-	r.Floor("R14.2", "SetProperty calls in renderer packages", nk, 3)
+	r.Floor("R14.2", "SetProperty calls in renderer packages", nk, 2)
 
 	// R14.5 renderers never add to the error list themselves
 	r.Rule("R14.5", "renderer packages report failures through their return value, never by adding to the table's error list")
@@ -237,4 +243,98 @@ func runC14(c *Ctx) {
 		}
 		r.Floor("R14.3", "property-store premises", n, 8)
 	}
+}
+
+// keyGlobalsOf: the package-level variables a property key value can be: a load of one, a constant-free merge of
+// such loads, or a field of an element of a local table every entry of which stores such a load in that field.
+// ok=false when the value is computed some other way (not a violation by itself: the rule then says nothing).
+func keyGlobalsOf(v ssa.Value) ([]*ssa.Global, bool) {
+	var out []*ssa.Global
+	for _, x := range phiClosure(v) {
+		x = unwrap(x, true)
+		if g := loadedGlobal(x); g != nil {
+			out = append(out, g)
+			continue
+		}
+		if _, isParam := x.(*ssa.Parameter); isParam {
+			return nil, false
+		}
+		// field f of an element of a local table
+		fieldIdx := -1
+		cur := x
+		var root *ssa.Alloc
+		for i := 0; i < 8 && root == nil; i++ {
+			switch y := cur.(type) {
+			case *ssa.Field:
+				if fieldIdx < 0 {
+					fieldIdx = y.Field
+				}
+				cur = y.X
+			case *ssa.Index:
+				cur = y.X
+			case *ssa.UnOp:
+				cur = y.X
+			case *ssa.FieldAddr:
+				if fieldIdx < 0 {
+					fieldIdx = y.Field
+				}
+				cur = y.X
+			case *ssa.IndexAddr:
+				cur = y.X
+			case *ssa.Alloc:
+				// a local that merely holds a copy of a table element: follow its single store
+				var only *ssa.Store
+				n := 0
+				for _, rr := range referrersOf(y) {
+					if st, ok := rr.(*ssa.Store); ok && st.Addr == ssa.Value(y) {
+						only = st
+						n++
+					}
+				}
+				if n == 1 {
+					cur = only.Val
+				} else {
+					root = y
+				}
+			default:
+				return nil, false
+			}
+		}
+		if root == nil || fieldIdx < 0 {
+			return nil, false
+		}
+		found := 0
+		okAll := true
+		var visit func(a ssa.Value, depth int)
+		visit = func(a ssa.Value, depth int) {
+			if depth > 4 {
+				return
+			}
+			for _, rr := range referrersOf(a) {
+				switch y := rr.(type) {
+				case *ssa.IndexAddr:
+					visit(y, depth+1)
+				case *ssa.FieldAddr:
+					if y.Field != fieldIdx {
+						continue
+					}
+					for _, r2 := range referrersOf(y) {
+						if st, ok := r2.(*ssa.Store); ok && st.Addr == ssa.Value(y) {
+							found++
+							if g := loadedGlobal(unwrap(st.Val, true)); g != nil {
+								out = append(out, g)
+							} else {
+								okAll = false
+							}
+						}
+					}
+				}
+			}
+		}
+		visit(root, 0)
+		if found == 0 || !okAll {
+			return nil, false
+		}
+	}
+	return out, len(out) > 0
 }
